@@ -1053,7 +1053,6 @@ func ruleOwners() *Rule {
 	}
 }
 
-
 // selfVoterBlocks: the blocks of fn entered only when r.configuration.IsVoter[r.id] is true (the true successor of a
 // branch on it, or the false successor of a branch on its negation, with that branch as only predecessor).
 func selfVoterBlocks(p *Program, fr *Frame, fn *ssa.Function) []*ssa.BasicBlock {
@@ -1083,7 +1082,6 @@ func dominatedByAny(doms []*ssa.BasicBlock, b *ssa.BasicBlock) bool {
 	}
 	return false
 }
-
 
 // selfVoterEdge: the edge from -> to is the arm of a branch on r.configuration.IsVoter[r.id] taken when it is true.
 func selfVoterEdge(p *Program, fr *Frame, from, to *ssa.BasicBlock) bool {
